@@ -25,7 +25,9 @@ R = z3.Real
 
 
 def work(item):
-    tj, style, seed, timeout_ms, engines = item
+    tj, style, seed, timeout_ms, engines = item[:5]
+    hist = item[5] if len(item) > 5 else "fresh"
+    builder = netcheck.history_builders()[hist]
     topo = T_.Topo.from_json(tj)
     rng = random.Random(seed)
     acc = netcheck.Acc(topo.name)
@@ -38,10 +40,10 @@ def work(item):
     try:
         encs = []
         if "numpy" in engines:
-            encs += netcheck.numpy_encodings(topo, style, None, D)
+            encs += netcheck.numpy_encodings(topo, style, None, D, builder=builder)
         for st in ("SX", "MX"):
             if st in engines:
-                e = netcheck.casadi_encoding(topo, st, numeric0)
+                e = netcheck.casadi_encoding(topo, st, numeric0, builder=builder)
                 e.extra["numeric"] = numeric0
                 encs.append(e)
     except (symx.UnsupportedOp, symx.Inconclusive) as e:
@@ -152,6 +154,12 @@ def main():
         timeout = 60000
     items = [(t.to_json(), ("array", "scalar")[k % 2], args.seed + k, timeout, ("numpy", "SX", "MX")) for k, t in enumerate(topos)
              if not args.only or args.only in t.name]
+    hs = ["decoy-attachments-replaced", "decoy-links-replaced", "reads-interleaved"]
+    for k, t in enumerate(families.curated()):
+        if args.only and args.only not in t.name:
+            continue
+        for h in (hs if args.thorough else [hs[k % 3]]):
+            items.append((t.to_json(), ("array", "scalar")[(k + 1) % 2], args.seed + k, timeout, ("numpy", "SX"), h))
     results = harness.pmap(work, items, args.serial)
     viol, inc, tot, levels, samples, st, extra = netcheck.summarize(results)
     cov = netcheck.base_coverage(
